@@ -170,8 +170,8 @@ Proof.
   apply rc_bind; [destruct (is_lazy (i_k i) && _); [apply rc_raise|apply rc_ret]
                  |destruct (is_lazy (i_k i) && _); [intros s a s' H; discriminate|apply rol_ret]|intros _].
   apply rc_bind; [apply rc_validate_all|apply rol_validate_all|intros _].
-  apply rc_bind; [destruct (existsb _ kvs); [apply rc_raise|apply rc_ret]
-                 |destruct (existsb _ kvs); [intros s a s' H; discriminate|apply rol_ret]|intros _].
+  apply rc_bind; [destruct (run_extras (as_dict kvs)); [apply rc_raise|apply rc_ret]
+                 |destruct (run_extras (as_dict kvs)); [intros s a s' H; discriminate|apply rol_ret]|intros _].
   destruct (is_lazy (i_k i)).
   - intros s e s' H. discriminate.
   - apply rc_bind_final.
